@@ -140,7 +140,8 @@ pub fn run_fe_gate(ctx: &mut Ctx, c: &FeGate) -> Result<(), String> {
 #[derive(Serialize, Deserialize, Debug, Clone, Hash, PartialEq, Eq)]
 pub struct FeOrder {
     /// 0: get_features answered with PROTOCOL_FEATURES, 1: answered without, 2: set_features with the bit,
-    /// 3: set_features without, 4: set_protocol_features(all), 5: set_protocol_features(none)
+    /// 3: set_features without, 4: set_protocol_features(all), 5: set_protocol_features(none),
+    /// 6: get_protocol_features answered with every bit
     pub word: Vec<u8>,
     pub op_idx: usize,
 }
@@ -151,13 +152,15 @@ pub fn run_fe_order(ctx: &mut Ctx, c: &FeOrder) -> Result<(), String> {
     let mut st = FeState { max_queue: 4, ..Default::default() };
     let vf = spec::VIRTIO_F_PROTOCOL_FEATURES | 1 << 32;
     for w in &c.word {
-        let (op, reply) = match w % 6 {
+        let (op, reply) = match w % 7 {
             0 => (FeOp::GetFeatures, Some(vf)),
             1 => (FeOp::GetFeatures, Some(1u64 << 32)),
             2 => (FeOp::SetFeatures(vf), None),
             3 => (FeOp::SetFeatures(1 << 32), None),
             4 => (FeOp::SetProtocolFeatures(0x3f_ffff), None),
-            _ => (FeOp::SetProtocolFeatures(0), None),
+            5 => (FeOp::SetProtocolFeatures(0), None),
+            // the back end offers every protocol feature; nothing is acknowledged by asking
+            _ => (FeOp::GetProtocolFeatures, Some(0x3f_ffff)),
         };
         if crate::feops::locally_rejected(&op, &st) {
             // the exchange itself is refused until PROTOCOL_FEATURES was offered: must not touch the wire
@@ -170,7 +173,7 @@ pub fn run_fe_order(ctx: &mut Ctx, c: &FeOrder) -> Result<(), String> {
             continue;
         }
         if let Some(v) = reply {
-            rawpeer::send_all(ours.as_raw_fd(), &spec::reply(fe::GET_FEATURES, &spec::b_u64(v)), &[]).map_err(|e| e.to_string())?;
+            rawpeer::send_all(ours.as_raw_fd(), &spec::reply(op.code(), &spec::b_u64(v)), &[]).map_err(|e| e.to_string())?;
         }
         let mut lent = make_lent(&op);
         perform(&mut f, &op, &mut lent).map_err(|e| format!("negotiation call {} failed: {e}", op.name()))?;
@@ -251,6 +254,9 @@ pub struct BeGate {
     pub dev_features: u64,
     pub history: Vec<NegMsg>,
     pub req_idx: usize,
+    /// the gated request carries NEED_REPLY
+    #[serde(default)]
+    pub need_reply: bool,
 }
 
 pub fn run_be_gate(ctx: &mut Ctx, c: &BeGate) -> Result<(), String> {
@@ -284,7 +290,7 @@ pub fn run_be_gate(ctx: &mut Ctx, c: &BeGate) -> Result<(), String> {
         ctx.class("be_gate_open_no_claim");
         return Ok(());
     }
-    chunks.push(Chunk { bytes: spec::request(code, false, &body), fds: fresh_fds(nfds, FdKind::Memfd) });
+    chunks.push(Chunk { bytes: spec::request(code, c.need_reply, &body), fds: fresh_fds(nfds, FdKind::Memfd) });
     let nh = c.history.len();
     let mut rec = Rec::new(c.dev_features, 0x3f_ffff);
     rec.hold_files = false;
@@ -297,7 +303,7 @@ pub fn run_be_gate(ctx: &mut Ctx, c: &BeGate) -> Result<(), String> {
     if other_bits || nh >= 3 {
         ctx.nontrivial(&("be", c.req_idx, acked_pf, acked_vf >> 30 & 1, &c.history));
     }
-    let desc = format!("back-end server: request code {code} after negotiation {:?} (acknowledged protocol features {acked_pf:#x}, virtio {acked_vf:#x})", c.history);
+    let desc = format!("back-end server: request code {code}{} after negotiation {:?} (acknowledged protocol features {acked_pf:#x}, virtio {acked_vf:#x})", if c.need_reply { " with NEED_REPLY" } else { "" }, c.history);
     if run.results.iter().any(|r| matches!(r, Res::Panic(_))) {
         return Err(format!("{desc}: panic"));
     }
@@ -383,6 +389,7 @@ fn neg_words(depth: usize) -> Vec<Vec<NegMsg>> {
         NegMsg::GetProtocolFeatures,
         NegMsg::SetProtocolFeatures(all),
         NegMsg::SetProtocolFeatures(0),
+        NegMsg::SetProtocolFeatures(8),
     ];
     let mut out = vec![vec![]];
     let mut cur = vec![vec![]];
@@ -446,7 +453,7 @@ pub fn run(ctx: &mut Ctx) {
     for _ in 0..ctx.tier.pick(3usize, 4usize) {
         let mut next = Vec::new();
         for w in &cur {
-            for a in 0..6u8 {
+            for a in 0..7u8 {
                 let mut x = w.clone();
                 x.push(a);
                 next.push(x);
@@ -478,7 +485,9 @@ pub fn run(ctx: &mut Ctx) {
                 NegMsg::SetProtocolFeatures(m | if idx % 2 == 0 { 8 } else { 0 }),
             ];
             for req_idx in 0..nreq {
-                bes.push(BeGate { dev_features: spec::VIRTIO_F_PROTOCOL_FEATURES | 0x1_0000_0003, history: hist.clone(), req_idx });
+                for need_reply in [false, true] {
+                    bes.push(BeGate { dev_features: spec::VIRTIO_F_PROTOCOL_FEATURES | 0x1_0000_0003, history: hist.clone(), req_idx, need_reply });
+                }
             }
         }
     }
@@ -491,7 +500,7 @@ pub fn run(ctx: &mut Ctx) {
     for w in neg_words(depth) {
         for req_idx in 0..nreq {
             for df in [spec::VIRTIO_F_PROTOCOL_FEATURES | 3, 3u64] {
-                ords.push(BeGate { dev_features: df, history: w.clone(), req_idx });
+                ords.push(BeGate { dev_features: df, history: w.clone(), req_idx, need_reply: (ords.len() / 2) % 2 == 1 });
             }
         }
     }
